@@ -142,9 +142,7 @@ func (e *Engine) setupIntrinsics() {
 		if k <= 0 {
 			panic(pathDead{"empty choice"})
 		}
-		if !e.decide(st, ULt(t, BVC(64, uint64(k)))) {
-			panic(pathDead{"choice out of range"})
-		}
+		e.assumeChecked(st, ULt(t, BVC(64, uint64(k))))
 		v := e.concretize(st, t, "choice "+name)
 		return BVC(64, v)
 	}
@@ -440,7 +438,7 @@ func (e *Engine) feasT(st *State, c *Term) (bool, bool, Model, Model) {
 			return true, false, st.Model, nil
 		}
 	}
-	r, m := e.solver.Check(st.PC, c, e.cfg.FeasTimeoutMs, true)
+	r, m := e.solver.CheckBase(st.PC, c, e.cfg.FeasTimeoutMs, true, st.Model)
 	switch r {
 	case Sat:
 		return true, false, m, nil
@@ -502,8 +500,13 @@ func (e *Engine) checkAssert(st *State, c *Term, label string) {
 		e.res.AssertsByFacts++
 		return
 	}
+	if e.res.violSeen["assert|"+label] {
+		// a counterexample for this assertion is already recorded in this unit
+		e.assumeChecked(st, c)
+		return
+	}
 	e.res.AssertQueries++
-	r, m := e.solver.Check(st.PC, Not(c), e.cfg.AssertTimeout, true)
+	r, m := e.solver.CheckBase(st.PC, Not(c), e.cfg.AssertTimeout, true, e.modelOf(st))
 	by := "z3-live"
 	if r == Unknown && e.cfg.EscalateSec > 0 {
 		r, m, by = e.solver.Escalate(st.PC, Not(c), e.cfg.EscalateSec, true, nil)
